@@ -6,6 +6,7 @@ from ..core import Op, jkey
 from ..rat import rat, frac, round_once_eq, tol_eq
 from ..symtrace import Sym
 from .. import gen_geom
+from .. import c06_route
 
 PROPERTY = "C06"
 LEAN_MODULE = "Proofs.C06"
@@ -16,7 +17,14 @@ THEOREMS = [_T + n for n in [
     "timeIoU_shift", "boxInter_le_min", "boxInter_symm", "boxInter_self", "boxInter_disjoint", "box_shift",
     "affinity_ok_iff", "C06_range", "affinityP_symm", "C06_symm", "C06_self_one", "C06_disjoint_zero", "C06_box_closed_form",
     "C06_time_only_is_time_iou", "C06_time_branch_composes", "C06_time_extents", "C06_negative_buffer", "C06_shift_invariant",
-    "C06_model_holds", "C06_contracts_satisfiable", "C06_pinned_formula_exceeds_one"]]
+    "C06_model_holds", "C06_contracts_satisfiable", "C06_pinned_formula_exceeds_one",
+    # review: the route (tied for all 81 type pairs), the rounding arithmetic, closed-form time-only pairs, shift
+    "C06_route_composes", "C06_routeR_composes", "affinityR_id", "routeR_id", "timeIoUR_id", "iouCR_id",
+    "timeIoUR_range", "timeIoUR_symm", "timeIoUR_self", "timeIoUR_disjoint",
+    "iouCR_range", "iouCR_symm", "iouCR_self", "iouCR_zero",
+    "C06_range_rounded", "C06_symm_rounded", "C06_self_one_rounded", "C06_disjoint_zero_rounded",
+    "C06_roundings_exist", "C06_time_only_closed_form", "C06_shift_invariant_strong",
+    "C06_boundsExact_satisfiable"]]
 LEVEL_TEXT = ("Lean theorems over the model of compute_affinity (everything GEOS computes is a parameter): the IoU and "
               "time-IoU formulas (range, symmetry, self, zero, shift), rectangle closed forms, and for the dispatcher "
               "range under `Sane`, symmetry / self = 1 / time-disjoint = 0 under `Sound`, the box closed form under "
@@ -131,7 +139,9 @@ def _measure(inp):
     if time_branch:
         need = [kd in ("plain", "buffered") for kd in kinds]
         boxes_measured = False
-        info["closed"] = grid and not any(need)
+        # a (multi)polygon side has exact bounds (min / max of coordinates: contract BoundsExact, checked
+        # exactly below), so only a GEOS-buffered side takes a pair out of the closed forms
+        info["closed"] = grid and "buffered" not in kinds
     else:
         both_boxes = kinds == ["box", "box"]
         boxes_measured = not (both_boxes and grid)
@@ -168,6 +178,13 @@ def _measure(inp):
     args = info["args"]
     args["obs"] = obs
     args["boxes_measured"] = boxes_measured
+    # contract BoundsExact on the sides shapely measured without buffering: bounds = min / max of the coordinates
+    bx = []
+    for gj, kd, ob in zip((inp["g1"], inp["g2"]), kinds, obs):
+        if ob is not None and kd in ("plain", "box"):
+            mb = _model("bounds", {"g": gj})
+            bx.append((gj, ob, "val" in mb and frac(mb["val"][0]) == frac(ob["st"]) and frac(mb["val"][2]) == frac(ob["en"])))
+    info["bounds_exact"] = bx
     if inter is not None:
         args["inter"] = inter
         info["measured_pair"] = True
@@ -267,6 +284,8 @@ def _holds_pair(ctx, inp, io):
         return None
     if "measure_error" in info:
         ctx.tally("shapely could not measure the prepared geometry although compute_affinity returned")
+    for gj, ob, ok in info.get("bounds_exact", ()):
+        ctx.contract("BoundsExact: shapely bounds = min / max of the coordinates (exact)", ok, inp, {"g": gj, "obs": ob})
     _contracts(ctx, inp, info)
     a12, a21 = io["val"]
     same = inp["g1"] == inp["g2"]
@@ -506,6 +525,73 @@ def _symbolic_ties(ctx):
                         meta={"op": "affinity_closed"})
 
 
+def _custom_tie(ctx, name, gen, meta):
+    """like ctx.sym_tie for obligations with their own binders: a trace that fails is a broken obligation"""
+    from ..leanio import InfraError
+    try:
+        src, n = gen()
+    except InfraError:
+        raise
+    except Exception as e:  # noqa: BLE001
+        ctx.symbolic_ties[name] = {"error": repr(e)[:300]}
+        ctx.pre_failed.append(name)
+        ctx.fail("obligation", name, detail=f"symbolic trace of the current source failed: {e!r}", extra=dict(meta))
+        return
+    ctx.symbolic_ties[name] = {"paths": n}
+    ctx.obligation(name, "set_option linter.unusedSimpArgs false\n" + src, meta)
+
+
+def _rounded_ties(ctx):
+    """the two formulas operation by operation in a rounding arithmetic (every result wrapped in `rnd`)"""
+    import soundevent.evaluation.affinity as A
+    R = c06_route
+    a, b, i = [R.rvar(n) for n in "abi"]
+    inter = {("x", "y"): i}
+    shapes = {"x": _ShapeStub("x", a, inter), "y": _ShapeStub("y", b, inter)}
+
+    def run_area():
+        saved = (A._prepare_geometry, A.geometry_to_shapely)
+        A._prepare_geometry = lambda g, *aa, **kw: g
+        A.geometry_to_shapely = lambda g: shapes[g.coordinates]
+        try:
+            return A.compute_affinity(_GeomStub("Polygon", "x"), _GeomStub("Polygon", "y"))
+        finally:
+            A._prepare_geometry, A.geometry_to_shapely = saved
+    _custom_tie(ctx, "ext_iou_r", lambda: R.formula_obligation(
+        "ext_iou_r", run_area, ["a", "b", "i"], "SE.Affinity.iouCR rnd a b i", "SE.Affinity.iouCR"),
+        {"op": "affinity_geos"})
+    BV = ["s1", "l1", "e1", "h1", "s2", "l2", "e2", "h2"]
+    sy = {n: R.rvar(n) for n in BV}
+
+    def run_time():
+        saved = A.compute_bounds
+        A.compute_bounds = lambda g: g.coordinates
+        try:
+            return A.compute_affinity_in_time(_GeomStub("TimeInterval", tuple(sy[n] for n in BV[:4])),
+                                              _GeomStub("TimeInterval", tuple(sy[n] for n in BV[4:])))
+        finally:
+            A.compute_bounds = saved
+    _custom_tie(ctx, "ext_time_iou_r", lambda: R.formula_obligation(
+        "ext_time_iou_r", run_time, BV, "SE.Affinity.timeIoUR rnd s1 e1 s2 e2", "SE.Affinity.timeIoUR"),
+        {"op": "affinity_closed"})
+
+
+def _route_ties(ctx):
+    """the whole of compute_affinity for every ordered type pair, every `Geos`, all coordinates and buffers, in
+    a rounding arithmetic: which branch, which sides are buffered with which buffers, which extents / areas"""
+    import soundevent.evaluation.affinity as A
+    import soundevent.geometry.operations as O
+    from soundevent import data as real_data
+    R = c06_route
+    for t1 in R.TYPES:
+        for t2 in R.TYPES:
+            name = f"ext_route_{t1}_{t2}"
+            time_only = t1 in ("TimeStamp", "TimeInterval") or t2 in ("TimeStamp", "TimeInterval")
+            _custom_tie(ctx, name, lambda: R.route_obligation(name, R.tracer(A, O, real_data, t1, t2), t1, t2),
+                        {"op": "affinity_closed" if time_only and "Point" not in t1 + t2 and "Line" not in t1 + t2
+                         else "affinity_geos"})
+
+
 # ---------------------------------------------------------------- generators
 def _bufs(rng, g1, g2, mode):
     low = g1["type"] in LOW_DIM or g2["type"] in LOW_DIM
@@ -703,14 +789,35 @@ def _corpus(ctx):
     ctx.run_corpus(OPS)
 
 
+def _bounds_contract(ctx):
+    """contract BoundsExact (hypothesis of C06_time_only_closed_form, and what the route traces put in place of
+    `shp.bounds` for a TimeStamp / TimeInterval / BoundingBox): `compute_bounds(g)` is the coordinate-wise
+    minimum / maximum `Geom.bounds g` — exactly, for all nine types, on grid and arbitrary binary64 coordinates"""
+    from soundevent.geometry import compute_bounds
+    n = ctx.budget(12, 60)
+    geoms = [gen(ctx.rng, ty) for ty in gen_geom.TYPES for gen in (_grid_geom, _free_geom) for _ in range(n)]
+    mos = ctx.model_many("bounds", [{"g": g} for g in geoms])
+    for g, mo in zip(geoms, mos):
+        try:
+            got = [rat(float(x)) for x in compute_bounds(gen_geom.to_data(g))]
+        except Exception as e:  # noqa: BLE001
+            got = repr(e)[:200]
+        ok = "val" in mo and isinstance(got, list) and [frac(x) for x in got] == [frac(x) for x in mo["val"]]
+        ctx.contract("BoundsExact: compute_bounds = min / max of the coordinates (exact; all nine types)", ok,
+                     {"g1": g, "g2": g, "tb": "1/4", "fb": "1/2", "mode": "grid"}, {"bounds": got, "model": mo})
+
+
 def run(ctx):
     global _CTX
     _CTX = ctx
     _CACHE.clear()
     ctx.stage("tables", _tables, ctx)
     ctx.stage("symbolic-ties", _symbolic_ties, ctx)
+    ctx.stage("symbolic-ties (rounding arithmetic)", _rounded_ties, ctx)
+    ctx.stage("symbolic-ties (routes of all 81 type pairs)", _route_ties, ctx)
     ctx.stage("discharge", ctx.discharge, ["SoundeventModel.Affinity", "SoundeventModel.Ops.C06", "SoundeventModel.Tactics"])
     ctx.stage("corpus", _corpus, ctx)
+    ctx.stage("bounds contract", _bounds_contract, ctx)
     ctx.stage("correspondence on grids", _correspondence, ctx)
     ctx.stage("free mode", _free_mode, ctx)
     ctx.stage("shift", _shifts, ctx)
